@@ -75,6 +75,9 @@ func (g *TextGen) literal(t *rapid.T, allowSet bool) m.Term {
 	k := rapid.IntRange(0, 9).Draw(t, "lit.kind")
 	switch {
 	case k <= 1:
+		if rapid.IntRange(0, 3).Draw(t, "lit.intrnd") == 3 {
+			return m.Int(rapid.Int64Range(0, 9223372036854775807).Draw(t, "lit.intv"))
+		}
 		return m.Int(rapid.SampledFrom([]int64{0, 1, 2, 7, 10, 42, 1000, 1 << 32, 9223372036854775807}).Draw(t, "lit.int"))
 	case k <= 4:
 		pool := textStrings
@@ -82,6 +85,10 @@ func (g *TextGen) literal(t *rapid.T, allowSet bool) m.Term {
 			pool = printableStrings
 		}
 		s := rapid.SampledFrom(pool).Draw(t, "lit.str")
+		if rapid.IntRange(0, 3).Draw(t, "lit.strrnd") == 3 {
+			// any characters except quote, backslash and line breaks
+			s = rapid.StringOfN(rapid.RuneFrom([]rune("abcxyzEH019 _-:/.,;()[]{}$<>=!&|+*'#@%?é日")), 0, 12, -1).Draw(t, "lit.strv")
+		}
 		if strings.ContainsAny(s, "\\") {
 			s = "plain"
 		}
@@ -90,9 +97,15 @@ func (g *TextGen) literal(t *rapid.T, allowSet bool) m.Term {
 		}
 		return m.Str(s)
 	case k == 5:
+		if rapid.Bool().Draw(t, "lit.daternd") {
+			return m.Date(rapid.Uint64Range(0, 253402300799).Draw(t, "lit.datev"))
+		}
 		return m.Date(rapid.SampledFrom([]uint64{0, 1, 1136214245, 1700000000, 4102444800, 253402300799}).Draw(t, "lit.date"))
 	case k == 6:
-		return m.Bytes(rapid.SampledFrom([][]byte{{}, {0}, {0x3d, 0xf9, 0x7f, 0xb5}, {0xAB, 0xCD}}).Draw(t, "lit.bytes"))
+		if rapid.IntRange(0, 2).Draw(t, "lit.bytesrnd") > 0 {
+			return m.Bytes(rapid.SliceOfN(rapid.Byte(), 0, 6).Draw(t, "lit.bytesv"))
+		}
+		return m.Bytes(rapid.SampledFrom([][]byte{{}, {0}, {0x3d, 0xf9, 0x7f, 0xb5}, {0xAB, 0xCD}, {0xee, 0x01}, {0xe1, 0xab}, {0xff}}).Draw(t, "lit.bytes"))
 	case k == 7:
 		return m.Bool(rapid.Bool().Draw(t, "lit.bool"))
 	case k == 8 && allowSet:
